@@ -672,13 +672,13 @@ def st_analyzer_case(draw):
     from cpverif import gen_mol as GM
 
     return {"mol": draw(GM.st_mol_chem(max_atoms=3, max_elec=10, levels=(0,), bases=("sto-3g", "6-31g"))),
-            "uks": draw(st.booleans()), "grids_level": draw(st.sampled_from([0, 0, 1, 2, 3])),
+            "uks": draw(st.booleans()), "roks": draw(st.booleans()), "grids_level": draw(st.sampled_from([0, 0, 1, 2, 3])),
             "xc": draw(st.sampled_from(["LDA", "PBE"])), "via": draw(st.sampled_from(["from_calc", "from_calc_level", "direct"])),
             "cycles": draw(st.integers(1, 2))}
 
 
 @subcheck("C14", "analyzer_roundtrip", st_analyzer_case, quick=80, thorough=800, shrink=False,
-          rule="RHFAnalyzer / UHFAnalyzer built from a short RKS/UKS calculation (2 SCF cycles; from_calc with the calculation's "
+          rule="RHFAnalyzer / UHFAnalyzer built from a short RKS / UKS / ROKS calculation (2 SCF cycles; from_calc with the calculation's "
                "grid level 0-3, from_calc with an explicit level, or the constructor) with the density tabulated, written with "
                "dump() and read with ElectronAnalyzer.load(), 1-2 cycles: same class, same grids_level, grid coordinates and "
                "weights, density matrix, orbitals, occupations and every stored data entry bit-identical, and the density "
@@ -692,7 +692,11 @@ def analyzer_roundtrip(case, ctx):
 
     mol = GM.build_mol(case["mol"])
     uks = case["uks"] or mol.spin != 0
-    ks = dft.UKS(mol) if uks else dft.RKS(mol)
+    # open-shell systems: unrestricted, or restricted open-shell (an RHF-type reference with a spin-resolved density matrix)
+    roks = bool(case.get("roks")) and mol.spin != 0
+    ks = dft.ROKS(mol) if roks else (dft.UKS(mol) if uks else dft.RKS(mol))
+    if roks:
+        uks = False
     ks.xc = case["xc"]
     ks.max_cycle = 2
     ks.verbose = 0
@@ -707,8 +711,9 @@ def analyzer_roundtrip(case, ctx):
         ref = (UHFAnalyzer if uks else RHFAnalyzer)(mol, ks.make_rdm1(), grids_level=lvl, mo_occ=ks.mo_occ, mo_coeff=ks.mo_coeff,
                                                     mo_energy=ks.mo_energy)
     rho_ref = np.array(ref.get_rho_data(), copy=True)
-    ctx.event("%s level=%d via=%s" % ("UKS" if uks else "RKS", lvl, case["via"]))
-    ctx.nontrivial(["UKS" if uks else "RKS", lvl, case["via"], GM.mol_class(case["mol"]), case["cycles"]])
+    ref_kind = "ROKS" if roks else ("UKS" if uks else "RKS")
+    ctx.event("%s level=%d via=%s" % (ref_kind, lvl, case["via"]))
+    ctx.nontrivial([ref_kind, lvl, case["via"], GM.mol_class(case["mol"]), case["cycles"]])
     cur = ref
     with TmpDir() as tmp:
         for c in range(case["cycles"]):
